@@ -208,6 +208,8 @@ def parse_ty(text: str) -> Ty:
             return Ty("Rec", (tk,))
         if tk == "Unit":
             return NONE
+        if tk == "Obj":
+            return OBJ  # an object of which only `is None` / truthiness is asked
         raise Untranslatable(f"bad type text {text!r} at {tk!r}")
 
     def app():
@@ -282,6 +284,14 @@ class Fn:
     #: for a method of a record (Spec.methods key ("Rec:<Class>", name)): the attributes of the
     #: receiver the Lean function takes first, in this order
     recv_fields: tuple = ()
+    #: for a raising call with an effect on a collaborator (`effect_key` and `raises`): the Lean
+    #: function answers `(Except String result, new state)` - the collaborator's state advances also
+    #: when the call raises. (Without this flag: `Except String (result × new state)`, the state is
+    #: unchanged by a raising call.)
+    error_keeps_state: bool = False
+    #: trailing Lean arguments that are not Python arguments (e.g. attributes of `self` the callee
+    #: reads but does not change: `("self_limit",)`)
+    suffix: tuple = ()
 
 
 EXC_PARENT = {
@@ -340,6 +350,8 @@ METHODS = {
     ("Str", "partition"): Fn("Pre.partition", [STR, STR], Tup(STR, STR, STR), nonempty_lit=(1,)),
     ("Str", "rpartition"): Fn("Pre.rpartition", [STR, STR], Tup(STR, STR, STR), nonempty_lit=(1,)),
     ("Str", "lower"): Fn("Pre.lower", [STR], STR),
+    # `s.encode()` (UTF-8, strict): total on the texts the model can hold (a Lean `Char` is never a surrogate)
+    ("Str", "encode"): Fn("Pre.encodeUtf8", [STR], BYTES),
     ("Str", "upper"): Fn("Pre.upper", [STR], STR),
     ("Str", "replace"): Fn("Pre.replace", [STR, STR, STR], STR),
     ("Str", "isascii"): Fn("Pre.isascii", [STR], BOOL),
@@ -372,6 +384,8 @@ MUTATORS = {
     ("Set", "discard"): ("Pre.setDiscard", ["elt"], ()),
     ("Set", "remove"): ("Pre.setRemove", ["elt"], ("KeyError",)),
     ("Set", "clear"): ("Pre.clear", [], ()),
+    # a bytearray
+    ("Bytes", "extend"): ("Pre.bytesExtend", [BYTES], ()),
 }
 
 #: module-level functions and bound methods of module-level objects, by dotted source name
@@ -478,6 +492,9 @@ class Spec:
     abs_str: dict = field(default_factory=dict)
     #: {python name: Fn}: `x in <name>` for an object with its own `__contains__` (the Fn takes x)
     in_ops: dict = field(default_factory=dict)
+    #: abstract types that are enumerations with decidable equality (e.g. an `enum.Enum` modelled as
+    #: a Lean inductive): `==` between their values is Lean's `==`
+    eq_types: list = field(default_factory=list)
     #: {abstract type name: Fn}: calling a local variable of that type, `f(args)` (the Fn takes f first)
     callables: dict = field(default_factory=dict)
     #: translate only a prefix of the function: (source text of a statement - as `ast.unparse` prints
@@ -491,6 +508,9 @@ class Spec:
     #: give the function a `(fuel : Nat)` parameter although it has no `while` loop of its own (it
     #: calls translated functions that take fuel: `Fn(..., extra=("fuel",))`)
     needs_fuel: bool = False
+    #: loops take every `self.<attr>` parameter along (for specs whose patterns / table entries
+    #: mention attributes that the Python text of the loop body does not)
+    capture_self: bool = False
     doc: str = ""
 
 
@@ -882,6 +902,8 @@ class Translator:
             if e.ty != NONE:
                 self.bad(node, "a method declared to return None returns a value")
             return self.wrap_value("()", loop, env, node)
+        if self.result_ty == NONE and e.ty == NONE:
+            return self.wrap_value("()", loop, env, node)
         c = self.coerce(e, self.result_ty, node)
         return self.wrap_value(c.lean, loop, env, node)
 
@@ -920,6 +942,9 @@ class Translator:
             return E("(" + ", ".join(x.lean for x in items) + ")", ty, None, True)
         if ty.kind == "List" and e.ty.kind == "List" and e.lean == "[]":
             return E("[]", ty, None, True)
+        if ty.kind == "List" and e.ty.kind == "Tup" and hasattr(e, "items") and all(x.ty == ty.args[0] for x in e.items):
+            # a tuple display handed to something that only iterates it (`sep.join((a, b))`)
+            return E("[" + ", ".join(x.lean for x in e.items) + "]", ty, None, True)
         if ty.kind == "Dict" and e.ty.kind == "Dict" and e.lean == "[]":
             return E("[]", ty, None, True)
         if ty.kind == "Dict" and e.ty.kind == "Dict" and ty.args[0] == e.ty.args[0] and ty.args[1] == Opt(e.ty.args[1]):
@@ -1427,6 +1452,9 @@ class Translator:
             # values that occur - the assumption recorded at Spec.orders)
             abs_ty = a.ty if a.ty.kind == "Abs" else b.ty
             a, b = self.coerce(a, abs_ty, node), self.coerce(b, abs_ty, node)
+            if abs_ty.args[0] in self.spec.eq_types:
+                # an enumeration (a Lean inductive with decidable equality): `==` is the identity of members
+                return E(f"{P(a)} == {P(b)}", BOOL)
             le = self.spec.orders.get(abs_ty.args[0])
             if le is None:
                 self.bad(node, f"the spec declares no order for the abstract type {abs_ty.args[0]}")
@@ -1443,6 +1471,18 @@ class Translator:
         self.bad(node, f"== between {a.ty} and {b.ty}")
 
     def binop(self, n, env) -> E:
+        if isinstance(n.op, ast.Mod) and isinstance(n.left, ast.Constant) and isinstance(n.left.value, bytes):
+            # printf-style formatting of a bytes literal with exactly one `%s` and no other `%`, by a
+            # single bytes value (not a tuple): the literal with the value spliced in
+            lit = n.left.value
+            if lit.count(b"%") != 1 or lit.count(b"%s") != 1:
+                self.bad(n, "bytes % formatting: only a literal with exactly one %s (and no other %)")
+            b = self.plain(self.expr(n.right, env), n.right)
+            if b.ty != BYTES:
+                self.bad(n, f"bytes % formatting with a {b.ty}")
+            pre, post = lit.split(b"%s")
+            parts = ([lean_bytes_lit(pre)] if pre else []) + [P(b)] + ([lean_bytes_lit(post)] if post else [])
+            return E(" ++ ".join(parts), BYTES)
         a = self.plain(self.expr(n.left, env), n.left)
         b = self.plain(self.expr(n.right, env), n.right)
         if a.ty == INT and b.ty == INT:
@@ -1648,6 +1688,7 @@ class Translator:
         rty = fn.result_of(tys) if fn.result_of is not None else fn.result
         if rty is None:
             self.bad(n, f"{fn.lean} is not defined for arguments of types {[str(t) for t in tys]}")
+        out += list(fn.suffix)
         return E(f"{fn.lean}{extra} " + " ".join(out) if out else f"{fn.lean}{extra}", rty)
 
     def builtin(self, n, env) -> E:
@@ -2120,6 +2161,15 @@ class Translator:
             return self.stmt_for(s, env, loop, k)
         if isinstance(s, ast.While):
             return self.stmt_while(s, env, loop, k)
+        if isinstance(s, ast.Expr) and isinstance(s.value, ast.Call):
+            # a call as a statement: evaluated for what it can raise / its effect on a collaborator,
+            # the value is dropped
+            try:
+                res_ = self.resolve_call(s.value, env)
+            except (Untranslatable, NeedUnwrap, NoneUsed):
+                res_ = None
+            if res_ is not None and (res_[0].raises or res_[0].effect_key):
+                return self.comment(s) + self.stmt_value(s, s.value, env, loop, lambda e, env2: k(env2, loop), handlers=None)
         if isinstance(s, ast.Continue):
             if loop is None:
                 self.bad(s, "continue outside a loop")
@@ -2181,6 +2231,16 @@ class Translator:
             drop_facts(env3, key_)
             value2 = _Subst(node, ast.Name(id=keyn, ctx=ast.Load())).visit(_copy(value))
             ast.fix_missing_locations(value2)
+            if fn.error_keeps_state:
+                # `(Except String result, new state)`: the state is rebound first, for both arms
+                r_ = f"r{self.tmp}_"
+                env3[keyn] = Var(tmp, ce.ty)
+                env_err = dict(env)
+                env_err[key_] = Var(stv.lean, stv.ty)
+                drop_facts(env_err, key_)
+                ok_lines = self.bind_raising(s, value2, env3, loop, handlers, cont, first=False)
+                err_lines = self.error_arm(fn.raises, handlers, s, env_err, loop)
+                return [f"let {r_} := {call_lean}", f"let {stv.lean} : {lean_ty(stv.ty)} := {r_}.2", f"match {r_}.1 with"] + err_lines + [f"| .ok {tmp} =>"] + ind(ok_lines)
             ok_lines = [f"let {stv.lean} : {lean_ty(stv.ty)} := {tmp}.2"] + self.bind_raising(s, value2, env3, loop, handlers, cont, first=False)
             err_lines = self.error_arm(fn.raises, handlers, s, env, loop)
             return [f"match {call_lean} with"] + err_lines + [f"| .ok {tmp} =>"] + ind(ok_lines)
@@ -2876,6 +2936,11 @@ class Translator:
                 for x in ast.walk(ast.Module(body=h.body, type_ignores=[])):
                     if isinstance(x, ast.Name) and x.id == h.name:
                         parent_ok = any(isinstance(r_, ast.Raise) and r_.cause is x for r_ in ast.walk(ast.Module(body=h.body, type_ignores=[])))
+                        # ... or inside a call that a pattern of the spec maps as a whole (the
+                        # pattern says what the exception object stands for there)
+                        for c_ in ast.walk(ast.Module(body=h.body, type_ignores=[])):
+                            if isinstance(c_, ast.Call) and any(x is y for y in ast.walk(c_)) and any(m_(c_) is not None for m_, _ in self.spec.patterns):
+                                parent_ok = True
                         if not parent_ok:
                             self.bad(h, "the bound exception is used other than as the cause of `raise ... from`")
             if isinstance(h.type, ast.Name):
@@ -2964,6 +3029,9 @@ class Translator:
             used = free_names(s.body) | free_names([s.test])
             if self.spec.state:
                 used = used | set(self.state_keys())
+            if self.spec.capture_self:
+                # patterns / table entries may mention attributes of `self` the Python text does not
+                used = used | {nm for nm in env1 if nm.startswith("self.")}
             captured = [nm for nm in env1 if not nm.startswith("<") and nm in used and nm not in state and env1[nm].ty != NONE]
             after_names = names_read_before_written(getattr(s, "_py2lean_rest", []) or [])
             exports = [nm for nm in assigned if nm not in env1 and nm in after_names and "." not in nm] if has_break else []
@@ -3511,7 +3579,7 @@ def assigned_names(stmts):
                 add(x.id)
             elif isinstance(x, ast.AugAssign) and isinstance(x.target, ast.Name):
                 add(x.target.id)
-            elif isinstance(x, ast.Call) and isinstance(x.func, ast.Attribute) and x.func.attr in ("append", "add", "remove", "discard", "clear", "pop") and dotted(x.func.value) is not None:
+            elif isinstance(x, ast.Call) and isinstance(x.func, ast.Attribute) and x.func.attr in ("append", "add", "remove", "discard", "clear", "pop", "extend") and dotted(x.func.value) is not None:
                 add(dotted(x.func.value))
             elif isinstance(x, (ast.Subscript, ast.Attribute)) and isinstance(x.ctx, (ast.Store, ast.Del)):
                 d = dotted(x.value) if isinstance(x, ast.Subscript) else dotted(x)
